@@ -101,9 +101,10 @@ Definition M_SPANS : text := [83;80;65;78;83].
 Definition M_FILES : text := [70;73;76;69;83].
 Definition M_MACRO_EXPANSIONS : text := [77;65;67;82;79;32;69;88;80;65;78;83;73;79;78;83].
 Definition M_STRING_INPUTS : text := [83;84;82;73;78;71;32;73;78;80;85;84;83].
+Definition M_TEST_ASSERTS : text := [84;69;83;84;32;65;83;83;69;82;84;83].
 Definition markers : list text :=
   [M_DEPENDENCIES; M_EXPORTS; M_BINDINGS; M_FUNCTIONS; M_INDEX_MACROS; M_CODE_MACROS; M_SPANS;
-   M_FILES; M_MACRO_EXPANSIONS; M_STRING_INPUTS].
+   M_FILES; M_MACRO_EXPANSIONS; M_STRING_INPUTS; M_TEST_ASSERTS].
 
 (** An assembly at the level of framing: the lines of each section, as the writer emits them
     (root nodes, dependencies, exports, bindings with their comment/deprecation lines,
@@ -112,7 +113,8 @@ Definition markers : list text :=
 Record sections := Sections {
   s_root : list text; s_deps : list text; s_exports : list text; s_bindings : list text;
   s_functions : list text; s_imacros : list text; s_cmacros : list text; s_spans : list text;
-  s_files : list text; s_expansions : list text; s_strings : list text }.
+  s_files : list text; s_expansions : list text; s_strings : list text;
+  s_asserts : list text   (* the TEST ASSERTS section: no line (count 0) or the count *) }.
 
 (** every line is pushed followed by '\n' *)
 Definition unlines (ls : list text) : text := concat (map (fun l => l ++ [NL]) ls).
@@ -120,8 +122,8 @@ Definition unlines (ls : list text) : text := concat (map (fun l => l ++ [NL]) l
 (** [uasm.push_str("\nMARKER\n")] *)
 Definition mark (m : text) : text := NL :: m ++ [NL].
 
-(** assembly.rs:494-608 *)
-Definition to_uasm (a : sections) : text :=
+(** [to_uasm] before 69a2f06 (no TEST ASSERTS section) *)
+Definition to_uasm_pre (a : sections) : text :=
   unlines (s_root a) ++ mark M_DEPENDENCIES ++ unlines (s_deps a) ++ mark M_EXPORTS ++
   unlines (s_exports a) ++ mark M_BINDINGS ++ unlines (s_bindings a) ++ mark M_FUNCTIONS ++
   unlines (s_functions a) ++ mark M_INDEX_MACROS ++ unlines (s_imacros a) ++ mark M_CODE_MACROS ++
@@ -131,15 +133,17 @@ Definition to_uasm (a : sections) : text :=
   | [] => []                                          (* if !self.inputs.strings.is_empty() *)
   | ss => mark M_STRING_INPUTS ++ unlines ss
   end.
+(** [Assembly::to_uasm] now: ... if self.test_assert_count > 0 { "\nTEST ASSERTS\n" count "\n" } *)
+Definition to_uasm (a : sections) : text :=
+  to_uasm_pre a ++ match s_asserts a with [] => [] | l => mark M_TEST_ASSERTS ++ unlines l end.
 
-(** The raw [*_src] strings of assembly.rs:253-274; failure = the index of the marker that was
-    not found ("No dependencies", "No exports", ...). *)
-Record raw := Raw {
+(** The raw [*_src] strings of from_uasm up to MACRO EXPANSIONS, and the rest after that marker;
+    failure = the index of the marker that was not found ("No dependencies", "No exports", ...). *)
+Record rawh := RawH {
   r_root : text; r_deps : text; r_exports : text; r_bindings : text; r_functions : text;
-  r_imacros : text; r_cmacros : text; r_spans : text; r_files : text; r_expansions : text;
-  r_strings : text }.
+  r_imacros : text; r_cmacros : text; r_spans : text; r_files : text }.
 
-Definition split_uasm_with (sp : text -> text -> option (text * text)) (src : text) : nat + raw :=
+Definition split_head (sp : text -> text -> option (text * text)) (src : text) : nat + (rawh * text) :=
   match sp M_DEPENDENCIES src with None => inl 0%nat | Some (root, rest) =>
   match sp M_EXPORTS rest with None => inl 1%nat | Some (deps, rest) =>
   match sp M_BINDINGS rest with None => inl 2%nat | Some (exports, rest) =>
@@ -149,27 +153,30 @@ Definition split_uasm_with (sp : text -> text -> option (text * text)) (src : te
   match sp M_SPANS (trim rest) with None => inl 6%nat | Some (cmacros, rest) =>
   match sp M_FILES (trim rest) with None => inl 7%nat | Some (spans, rest) =>
   match sp M_MACRO_EXPANSIONS (trim rest) with None => inl 8%nat | Some (files, rest) =>
-  let '(expansions, rest') :=
-    match sp M_STRING_INPUTS (trim rest) with
-    | Some p => p
-    | None => (rest, [])                              (* .unwrap_or((rest, "")) *)
-    end in
-  inr (Raw root deps exports bindings functions imacros cmacros spans files expansions (trim rest'))
+  inr (RawH root deps exports bindings functions imacros cmacros spans files, rest)
   end end end end end end end end end.
 
-
 (** the spans section is read with [split('\n')], one span per piece (an empty piece is
-    Span::Builtin), and the last one is popped (assembly.rs:336-359; the assertion that the
-    popped one is Builtin is part of the per-line parsers, not of the framing) *)
+    Span::Builtin), and the last one is popped (the assertion that the popped one is Builtin is
+    part of the per-line parsers, not of the framing) *)
 Definition span_lines (s : text) : list text := removelast (split_nl s).
 
+Definition head_sections (h : rawh) (exps strings asserts : list text) : sections :=
+  Sections (lines_ne (r_root h)) (lines_ne (r_deps h)) (lines_ne (r_exports h))
+    (lines_ne (r_bindings h)) (lines_ne (r_functions h)) (lines_ne (r_imacros h))
+    (lines_ne (r_cmacros h)) (span_lines (r_spans h)) (lines_ne (r_files h)) exps strings asserts.
+
+(** the readers before 69a2f06: after MACRO EXPANSIONS only the optional STRING INPUTS *)
 Definition from_uasm_with (sp : text -> text -> option (text * text)) (src : text) : nat + sections :=
-  match split_uasm_with sp src with
+  match split_head sp src with
   | inl k => inl k
-  | inr r => inr (Sections (lines_ne (r_root r)) (lines_ne (r_deps r)) (lines_ne (r_exports r))
-                   (lines_ne (r_bindings r)) (lines_ne (r_functions r)) (lines_ne (r_imacros r))
-                   (lines_ne (r_cmacros r)) (span_lines (r_spans r)) (lines_ne (r_files r))
-                   (lines_ne (r_expansions r)) (lines (r_strings r)))
+  | inr (h, rest) =>
+      let '(expansions, rest') :=
+        match sp M_STRING_INPUTS (trim rest) with
+        | Some p => p
+        | None => (rest, [])                              (* .unwrap_or((rest, "")) *)
+        end in
+      inr (head_sections h (lines_ne expansions) (lines (trim rest')) [])
   end.
 (** the reader before 0f91cb1: bare marker words found with split_once *)
 Definition from_uasm_pre := from_uasm_with split_once.
@@ -179,7 +186,11 @@ Definition from_uasm_pre := from_uasm_with split_once.
 Definition reread (a : sections) : sections :=
   Sections (s_root a) (s_deps a) (s_exports a) (s_bindings a) (s_functions a) (s_imacros a)
     (s_cmacros a) (match s_spans a with [] => [] | l => l ++ [[]] end) (s_files a)
-    (s_expansions a) (s_strings a).
+    (s_expansions a) (s_strings a) (s_asserts a).
+Definition reread_pre (a : sections) : sections :=
+  Sections (s_root a) (s_deps a) (s_exports a) (s_bindings a) (s_functions a) (s_imacros a)
+    (s_cmacros a) (match s_spans a with [] => [] | l => l ++ [[]] end) (s_files a)
+    (s_expansions a) (s_strings a) [].
 
 (** ---- the current reader (fn split_marker inside from_uasm): a marker is a whole line.  Same cascade, but the text is cut at
     the first LINE that equals the marker (a line ends at '\n', one '\r' before it is ignored):
@@ -214,8 +225,22 @@ Fixpoint split_marker_aux (m : text) (bol : bool) (s : text) : option (text * te
             end
   end.
 Definition split_marker (m s : text) : option (text * text) := split_marker_aux m true s.
-(** the current reader (assembly.rs:252-283 after 0f91cb1) *)
-Definition from_uasm := from_uasm_with split_marker.
+(** the reader between 0f91cb1 and 69a2f06 *)
+Definition from_uasm_mid := from_uasm_with split_marker.
+(** the current reader: the optional TEST ASSERTS section is WRITTEN last but cut off FIRST:
+      let (rest, test_asserts_src) = split_marker(rest.trim(), "TEST ASSERTS").unwrap_or((rest, ""));
+      let (expansions_src, rest) = split_marker(rest.trim(), "STRING INPUTS").unwrap_or((rest, ""));
+      let strings_src = rest.trim();   ...   match test_asserts_src.trim() { "" => 0, count => count.parse() } *)
+Definition from_uasm (src : text) : nat + sections :=
+  match split_head split_marker src with
+  | inl k => inl k
+  | inr (h, rest) =>
+      let '(rest1, ta) :=
+        match split_marker M_TEST_ASSERTS (trim rest) with Some p => p | None => (rest, []) end in
+      let '(expansions, rest') :=
+        match split_marker M_STRING_INPUTS (trim rest1) with Some p => p | None => (rest1, []) end in
+      inr (head_sections h (lines_ne expansions) (lines (trim rest')) (lines (trim ta)))
+  end.
 
 (** premises of the round trip, as executable predicates *)
 Definition line_ok (l : text) : bool :=
@@ -229,9 +254,9 @@ Definition sections_wf (a : sections) : bool :=
   forallb line_ok (s_root a) && forallb line_ok (s_deps a) && forallb line_ok (s_exports a) &&
   forallb line_ok (s_bindings a) && forallb line_ok (s_functions a) && forallb line_ok (s_imacros a) &&
   forallb line_ok (s_cmacros a) && forallb span_line_ok (s_spans a) && forallb line_ok (s_files a) &&
-  forallb line_ok (s_expansions a) && forallb line_ok (s_strings a) &&
+  forallb line_ok (s_expansions a) && forallb line_ok (s_strings a) && forallb line_ok (s_asserts a) &&
   head_ok (s_bindings a) && head_ok (s_functions a) && head_ok (s_imacros a) && head_ok (s_cmacros a) &&
-  head_ok (s_spans a) && head_ok (s_files a) && head_ok (s_expansions a) && head_ok (s_strings a).
+  head_ok (s_spans a) && head_ok (s_files a) && head_ok (s_expansions a) && head_ok (s_strings a) && head_ok (s_asserts a).
 
 (** no section body contains the marker that ends it *)
 Definition no_marker_in_bodies (a : sections) : bool :=
@@ -270,7 +295,7 @@ Definition written_shape (a : sections) : bool :=
   forallb has_low (s_root a) && forallb has_low (s_deps a) && forallb has_low (s_exports a) &&
   forallb has_low (s_bindings a) && forallb has_low (s_functions a) && forallb has_low (s_imacros a) &&
   forallb has_low (s_cmacros a) && forallb span_shape (s_spans a) && forallb has_low (s_files a) &&
-  forallb has_low (s_expansions a).
+  forallb has_low (s_expansions a) && forallb has_low (s_strings a) && forallb has_low (s_asserts a).
 
 (** a JSON line starts with a double quote, [ { digit - t f n : never with an upper-case letter *)
 Definition json_start (c : N) : bool :=
@@ -284,7 +309,7 @@ Definition sections_eqb (a b : sections) : bool :=
   le (s_root a) (s_root b) && le (s_deps a) (s_deps b) && le (s_exports a) (s_exports b) &&
   le (s_bindings a) (s_bindings b) && le (s_functions a) (s_functions b) && le (s_imacros a) (s_imacros b) &&
   le (s_cmacros a) (s_cmacros b) && le (s_spans a) (s_spans b) && le (s_files a) (s_files b) &&
-  le (s_expansions a) (s_expansions b) && le (s_strings a) (s_strings b).
+  le (s_expansions a) (s_expansions b) && le (s_strings a) (s_strings b) && le (s_asserts a) (s_asserts b).
 
 (** summary used by the tie: failure index, or the number of items of each section
     (bindings: lines that are not "  comment: " / "  deprecation: " continuation lines) *)
@@ -298,6 +323,6 @@ Definition summary (r : nat + sections) : list N :=
   | inl k => [0; N.of_nat k]
   | inr a => [1; N_len (s_root a); N_len (s_deps a); N_len (s_exports a); N_len (filter (fun l => negb (is_cont l)) (s_bindings a));
               N_len (s_functions a); N_len (s_imacros a); N_len (s_cmacros a); N_len (s_spans a);
-              N_len (s_files a); N_len (s_expansions a); N_len (s_strings a);
+              N_len (s_files a); N_len (s_expansions a); N_len (s_strings a); N_len (s_asserts a);
               (if sections_wf a && written_shape a then 1 else 0)]
   end.
